@@ -37,7 +37,8 @@ pub fn check() -> Check {
         rule: "(1) Random sessions (proptest) of raw bytes over the full 0..=255 alphabet - well-formed characters, malformed UTF-8 fragments, controls, CSI sequences, command fragments, Enter/Tab/arrows - with Cli::write and set_prompt interleaved at arbitrary byte positions, both buffer sizes uniform in 0..=64, three command sets, \
                a handler that iterates every argument; built with debug assertions (core's unsafe-precondition checks for get_unchecked, copy_nonoverlapping, unwrap_unchecked, from_u32_unchecked) and overflow checks, in worker processes so that non-unwinding aborts are caught. \
                (2) Coverage-guided: a cargo-fuzz target (libFuzzer + AddressSanitizer, same debug/overflow checks) decoding its input into such a session, 16 independent processes seeded from VERIF_SEED and a committed seed corpus; the final corpus is replayed in the plain harness build. \
-               Oracle inside both: no panic/abort/sanitizer report, and after every byte the invariants behind every unchecked operation: valid <= buffer, cursor <= chars, editor bytes well-formed UTF-8, history used <= len and a sequence of NUL-terminated non-empty well-formed entries, navigation cursor on an entry start, every handler string/char sound. \
+               (3) Stack depth: the library built with opt-level 0 is driven on a 96 KiB stack with texts of up to 300 000 line feeds, lines of thousands of tokens / clustered options / characters and histories of thousands of entries; a death is a violation. \
+               Oracle inside (1) and (2): no panic/abort/sanitizer report, and after every byte the invariants behind every unchecked operation: valid <= buffer, cursor <= chars, editor bytes well-formed UTF-8, history used <= len and a sequence of NUL-terminated non-empty well-formed entries, navigation cursor on an entry start, every handler string/char sound. \
                Non-trivial = the session reaches a rejected/filled command buffer, a history eviction, a recall after an eviction, a completion with < 2 bytes free, or a buffer of <= 1 byte; distinct by input bytes.",
         assumptions: &[
             "memory safety is observed through precondition assertions, explicit invariants and ASan on x86-64; layout-dependent undefined behaviour that trips none of them is invisible",
@@ -55,8 +56,77 @@ fn work_dir(tier: Tier) -> PathBuf {
     vmodel::root().join("harness/run").join(format!("C03-{}-fuzz", tier.name()))
 }
 
+const STACK_SCENARIOS: [(&str, &[usize]); 6] = [
+    ("write-linefeeds", &[1, 100, 20_000, 300_000]),
+    ("handler-linefeeds", &[1, 100, 20_000, 300_000]),
+    ("many-tokens", &[10, 3_000]),
+    ("long-cluster", &[10, 3_000]),
+    ("history-walk", &[10, 3_000]),
+    ("long-line-edit", &[10, 3_000]),
+];
+
+/// Build the probe (library without optimisation) and run one scenario: Ok(true) survived, Ok(false) died, Err = unavailable
+fn stack_probe(scenario: &str, n: usize, build: bool) -> Result<bool, String> {
+    if build {
+        let b = Command::new("cargo")
+            .args(["build", "-p", "stackprobe"])
+            .current_dir(vmodel::rooted("harness"))
+            .env("CARGO_NET_OFFLINE", "true")
+            .output()
+            .map_err(|e| e.to_string())?;
+        if !b.status.success() {
+            return Err(String::from_utf8_lossy(&b.stderr).lines().rev().take(6).collect::<Vec<_>>().join(" | "));
+        }
+    }
+    let o = Command::new(vmodel::rooted("harness/target/debug/stackprobe")).arg(scenario).arg(n.to_string()).output().map_err(|e| e.to_string())?;
+    Ok(o.status.success() && String::from_utf8_lossy(&o.stdout).contains("STACKPROBE-OK"))
+}
+
+/// Stack depth must not grow with the size of the input: texts with up to 300 000 line feeds, lines with thousands of
+/// tokens / options / characters and histories with thousands of entries are pushed through a library built without
+/// optimisation on a 96 KiB stack. A death (stack overflow) is a violation.
+fn stack_stage() -> Result<Value, PrepError> {
+    let t0 = std::time::Instant::now();
+    if let Err(why) = stack_probe("write-linefeeds", 1, true) {
+        return Ok(json!({"stack_probe": format!("unavailable: {}", why)}));
+    }
+    let mut runs = 0u64;
+    let mut handles = Vec::new();
+    for (sc, ns) in STACK_SCENARIOS {
+        for n in ns.iter() {
+            let (sc, n) = (sc.to_string(), *n);
+            handles.push(std::thread::spawn(move || (sc.clone(), n, stack_probe(&sc, n, false))));
+        }
+    }
+    for h in handles {
+        let (sc, n, r) = h.join().unwrap();
+        runs += 1;
+        match r {
+            Ok(true) => {}
+            Ok(false) => {
+                return Err(PrepError::Violation(Failure::new(
+                    "stack-depth",
+                    json!({"scenario": sc, "n": n}),
+                    "the library survives on a 96 KiB stack whatever the size of the text, line or history (built without optimisation)",
+                    format!("scenario {} with n = {} died (stack overflow or abort)", sc, n),
+                )))
+            }
+            Err(e) => return Err(PrepError::Inconclusive(format!("stack probe could not run: {}", e))),
+        }
+    }
+    Ok(json!({"stack_probe": "library built with opt-level 0, 96 KiB stack", "stack_probe_runs": runs, "stack_probe_s": (t0.elapsed().as_secs_f64() * 10.0).round() / 10.0}))
+}
+
 fn prepare(tier: Tier, seed: u64, dir: &Path) -> Result<Value, PrepError> {
     let mut info = prepare_fuzz(tier, seed, dir)?;
+    let st = stack_stage()?;
+    if let (Some(a), Some(b)) = (info.as_object_mut(), st.as_object()) {
+        for (k, v) in b {
+            a.insert(k.clone(), v.clone());
+        }
+        let extra = a.get("extra_evaluations").and_then(|v| v.as_u64()).unwrap_or(0) + b.get("stack_probe_runs").and_then(|v| v.as_u64()).unwrap_or(0);
+        a.insert("extra_evaluations".into(), json!(extra));
+    }
     if tier == Tier::Thorough {
         let m = miri_stage(tier, seed)?;
         if let (Some(a), Some(b)) = (info.as_object_mut(), m.as_object()) {
@@ -376,6 +446,14 @@ fn run_shard(ctx: &ShardCtx) {
 }
 
 fn replay(sub: &str, case: &Value) -> Verdict {
+    if sub == "stack-depth" {
+        let (sc, n) = (case["scenario"].as_str().unwrap_or("write-linefeeds"), case["n"].as_u64().unwrap_or(1) as usize);
+        return match stack_probe(sc, n, true) {
+            Ok(true) => Ok(()),
+            Ok(false) => Err(Failure::new(sub, case.clone(), "the library survives on a 96 KiB stack (built without optimisation)", format!("scenario {} with n = {} died", sc, n))),
+            Err(e) => Err(Failure::new(sub, case.clone(), "the stack probe builds and runs", e)),
+        };
+    }
     let data = unhex(case["hex"].as_str().unwrap_or(""));
     // also accept the structured form used by older regressions (cfg + ops of the session driver)
     if case.get("hex").is_none() && case.get("ops").is_some() {
